@@ -1,1 +1,278 @@
-fn main(){}
+//! puremon: monitors for the pure pieces (no ptrace, no FFI).
+//!   puremon dr7                     exhaustive DR7 encoder check against the SDM formula (C14)
+//!   puremon pathindex SEED N        random + bounded-exhaustive insert/query sequences of the path-suffix
+//!                                   index against a naive list model (C17)
+//! Output: one JSON object on stdout; a non-empty "violations" array means the property is refuted.
+
+use bugstalker::debugger::register::debug::{
+    BreakCondition, BreakSize, DebugControlRegister, DebugRegisterNumber,
+};
+use bugstalker::verif::PathSearchIndex;
+
+fn jstr(s: &str) -> String {
+    let mut o = String::from("\"");
+    for c in s.chars() {
+        match c {
+            '"' => o.push_str("\\\""),
+            '\\' => o.push_str("\\\\"),
+            '\n' => o.push_str("\\n"),
+            c if (c as u32) < 0x20 => o.push_str(&format!("\\u{:04x}", c as u32)),
+            c => o.push(c),
+        }
+    }
+    o.push('"');
+    o
+}
+
+// ------------------------------------------------------------------------------------------------ DR7
+
+fn dr7() {
+    let regs = [
+        DebugRegisterNumber::DR0,
+        DebugRegisterNumber::DR1,
+        DebugRegisterNumber::DR2,
+        DebugRegisterNumber::DR3,
+    ];
+    let conds = [
+        (BreakCondition::DataWrites, 0b01usize),
+        (BreakCondition::DataReadsWrites, 0b11usize),
+    ];
+    // SDM: LEN 00 = 1 byte, 01 = 2 bytes, 11 = 4 bytes, 10 = 8 bytes
+    let sizes = [
+        (BreakSize::Bytes1, 0b00usize),
+        (BreakSize::Bytes2, 0b01usize),
+        (BreakSize::Bytes4, 0b11usize),
+        (BreakSize::Bytes8, 0b10usize),
+    ];
+    let mut evals: u64 = 0;
+    let mut states: u64 = 0;
+    let mut violations: Vec<String> = vec![];
+    // prior state: every slot either disabled or locally enabled, with any 4-bit RW/LEN field (stale or live)
+    for prior_idx in 0..(32usize.pow(4)) {
+        let mut prior: usize = 0;
+        let mut x = prior_idx;
+        let mut any_enabled = false;
+        for slot in 0..4 {
+            let f = x % 32;
+            x /= 32;
+            let enabled = f & 1;
+            let field = f >> 1;
+            prior |= enabled << (2 * slot);
+            prior |= field << (16 + 4 * slot);
+            any_enabled |= enabled == 1;
+        }
+        if any_enabled {
+            prior |= 1 << 8;
+        }
+        states += 1;
+        for (si, slot) in regs.iter().enumerate() {
+            for (c, cbits) in conds.iter() {
+                for (s, sbits) in sizes.iter() {
+                    // enable
+                    let mut r = DebugControlRegister::from_raw(prior);
+                    r.configure_bp(*slot, *c, *s);
+                    r.set_dr(*slot, false, true);
+                    let mut exp = prior & !(0xF << (16 + 4 * si));
+                    exp |= cbits << (16 + 4 * si);
+                    exp |= sbits << (18 + 4 * si);
+                    exp |= 1 << (2 * si);
+                    exp |= 1 << 8;
+                    evals += 1;
+                    if r.raw() != exp && violations.len() < 8 {
+                        violations.push(format!(
+                            "{{\"op\":\"enable\",\"prior\":{prior},\"slot\":{si},\"cond\":{cbits},\"len\":{sbits},\"got\":{},\"expected\":{exp}}}",
+                            r.raw()
+                        ));
+                    }
+                    if !r.dr_enabled(*slot, false) && violations.len() < 8 {
+                        violations.push(format!("{{\"op\":\"dr_enabled-after-enable\",\"prior\":{prior},\"slot\":{si}}}"));
+                    }
+                    // disable again: enable bit cleared, nothing else of other slots changes
+                    let after_enable = r.raw();
+                    r.set_dr(*slot, false, false);
+                    let mut exp2 = after_enable & !(1 << (2 * si));
+                    if exp2 & 0b01010101 == 0 {
+                        exp2 &= !(1 << 8);
+                    }
+                    evals += 1;
+                    if r.raw() != exp2 && violations.len() < 8 {
+                        violations.push(format!(
+                            "{{\"op\":\"disable\",\"prior\":{after_enable},\"slot\":{si},\"got\":{},\"expected\":{exp2}}}",
+                            r.raw()
+                        ));
+                    }
+                }
+            }
+        }
+    }
+    println!(
+        "{{\"leg\":\"dr7\",\"prior_states\":{states},\"evaluations\":{evals},\"violations\":[{}]}}",
+        violations.join(",")
+    );
+}
+
+// ------------------------------------------------------------------------------------------------ path index
+
+struct Rng(u64);
+impl Rng {
+    fn next(&mut self) -> u64 {
+        self.0 = self.0.wrapping_add(0x9E3779B97F4A7C15);
+        let mut x = self.0;
+        x = (x ^ (x >> 30)).wrapping_mul(0xBF58476D1CE4E5B9);
+        x = (x ^ (x >> 27)).wrapping_mul(0x94D049BB133111EB);
+        x ^ (x >> 31)
+    }
+    fn below(&mut self, n: usize) -> usize {
+        (self.next() % n as u64) as usize
+    }
+}
+
+/// naive model: the list of (components, value); a needle matches iff its components equal the trailing components
+fn model_get(model: &[(Vec<String>, u32)], needle: &[String]) -> Vec<u32> {
+    let mut out: Vec<u32> = model
+        .iter()
+        .filter(|(p, _)| p.len() >= needle.len() && p[p.len() - needle.len()..] == *needle)
+        .map(|(_, v)| *v)
+        .collect();
+    out.sort();
+    out
+}
+
+fn check_queries(
+    idx: &PathSearchIndex<u32>,
+    model: &[(Vec<String>, u32)],
+    delim: &str,
+    needles: &[Vec<String>],
+    violations: &mut Vec<String>,
+    evals: &mut u64,
+    nonempty: &mut u64,
+) {
+    for needle in needles {
+        let text = needle.join(delim);
+        let mut got: Vec<u32> = idx.get(&text).into_iter().copied().collect();
+        got.sort();
+        let exp = model_get(model, needle);
+        *evals += 1;
+        if !exp.is_empty() {
+            *nonempty += 1;
+        }
+        if got != exp && violations.len() < 8 {
+            violations.push(format!(
+                "{{\"needle\":{},\"got\":{:?},\"expected\":{:?},\"paths\":[{}]}}",
+                jstr(&text),
+                got,
+                exp,
+                model
+                    .iter()
+                    .take(24)
+                    .map(|(p, v)| format!("[{},{}]", jstr(&p.join(delim)), v))
+                    .collect::<Vec<_>>()
+                    .join(",")
+            ));
+        }
+    }
+}
+
+fn pathindex(seed: u64, n_seq: usize) {
+    let mut rng = Rng(seed);
+    let mut violations = vec![];
+    let mut evals = 0u64;
+    let mut nonempty = 0u64;
+    let mut inserts = 0u64;
+    // near-miss alphabet: components that are prefixes/suffixes/extensions of each other
+    let comps = ["a", "b", "ab", "xb", "bx", "f", "ff", "xf", "a_b", "file.rs", "xfile.rs", "dir", "xdir", "dirx", "m", ""];
+    // ---- random sequences
+    for _ in 0..n_seq {
+        let delim = if rng.below(2) == 0 { "::" } else { "/" };
+        let mut idx: PathSearchIndex<u32> = PathSearchIndex::new(delim);
+        let mut model: Vec<(Vec<String>, u32)> = vec![];
+        let n = 1 + rng.below(24);
+        for v in 0..n {
+            let len = 1 + rng.below(4);
+            let mut p: Vec<String> = (0..len).map(|_| comps[rng.below(comps.len() - 1)].to_string()).collect();
+            // duplicates of an earlier path are frequent on purpose (monomorphizations share a path)
+            if !model.is_empty() && rng.below(4) == 0 {
+                p = model[rng.below(model.len())].0.clone();
+            }
+            if rng.below(2) == 0 {
+                idx.insert(p.iter(), v as u32);
+            } else {
+                idx.insert_w_head(p[..p.len() - 1].iter(), &p[p.len() - 1], v as u32);
+            }
+            inserts += 1;
+            model.push((p, v as u32));
+        }
+        // needles: every suffix of every path, and mutations of them
+        let mut needles: Vec<Vec<String>> = vec![];
+        for (p, _) in &model {
+            for k in 1..=p.len() {
+                let suf = p[p.len() - k..].to_vec();
+                needles.push(suf.clone());
+                let mut m = suf.clone();
+                let j = rng.below(m.len());
+                m[j] = comps[rng.below(comps.len() - 1)].to_string();
+                needles.push(m);
+                let mut m2 = suf.clone();
+                m2.insert(0, comps[rng.below(comps.len() - 1)].to_string());
+                needles.push(m2);
+            }
+        }
+        needles.retain(|n| n.iter().all(|c| !c.is_empty()));
+        check_queries(&idx, &model, delim, &needles, &mut violations, &mut evals, &mut nonempty);
+    }
+    // ---- bounded exhaustive: all multisets of up to 3 paths over {a,b,ab} with length <= 2, all needles of length <= 3
+    let small = ["a", "b", "ab"];
+    let mut all_paths: Vec<Vec<String>> = vec![];
+    for x in small {
+        all_paths.push(vec![x.to_string()]);
+        for y in small {
+            all_paths.push(vec![x.to_string(), y.to_string()]);
+        }
+    }
+    let mut all_needles: Vec<Vec<String>> = all_paths.clone();
+    for x in small {
+        for y in small {
+            for z in small {
+                all_needles.push(vec![x.to_string(), y.to_string(), z.to_string()]);
+            }
+        }
+    }
+    let np = all_paths.len();
+    let mut exhaustive_sets = 0u64;
+    for i in 0..np {
+        for j in 0..np {
+            for k in 0..np {
+                let mut idx: PathSearchIndex<u32> = PathSearchIndex::new("::");
+                let mut model = vec![];
+                for (v, pi) in [i, j, k].iter().enumerate() {
+                    let p = &all_paths[*pi];
+                    idx.insert(p.iter(), v as u32);
+                    model.push((p.clone(), v as u32));
+                    inserts += 1;
+                }
+                exhaustive_sets += 1;
+                check_queries(&idx, &model, "::", &all_needles, &mut violations, &mut evals, &mut nonempty);
+            }
+        }
+    }
+    println!(
+        "{{\"leg\":\"pathindex\",\"sequences\":{n_seq},\"exhaustive_sets\":{exhaustive_sets},\"inserts\":{inserts},\"queries\":{evals},\"queries_with_matches\":{nonempty},\"violations\":[{}]}}",
+        violations.join(",")
+    );
+}
+
+fn main() {
+    let args: Vec<String> = std::env::args().collect();
+    match args.get(1).map(|s| s.as_str()) {
+        Some("dr7") => dr7(),
+        Some("pathindex") => {
+            let seed = args.get(2).and_then(|s| s.parse().ok()).unwrap_or(1);
+            let n = args.get(3).and_then(|s| s.parse().ok()).unwrap_or(200);
+            pathindex(seed, n)
+        }
+        _ => {
+            eprintln!("usage: puremon dr7 | pathindex SEED N");
+            std::process::exit(2)
+        }
+    }
+}
